@@ -562,6 +562,51 @@ end"#;
     }
 
     #[test]
+    fn test_deep_nesting_is_a_syntax_error_not_a_stack_overflow() {
+        // test threads have a 2 MiB stack, like the worker threads of the language server
+        let depth = 10_000;
+        let inputs = [
+            format!("x = {}1{}", "(".repeat(depth), ")".repeat(depth)),
+            format!("x = {}{}", "{".repeat(depth), "}".repeat(depth)),
+            format!(
+                "x = {}1{}",
+                "function() return ".repeat(depth),
+                " end".repeat(depth)
+            ),
+            format!("{}{}", "do ".repeat(depth), " end".repeat(depth)),
+            format!("x = {}1", "- ".repeat(depth)),
+            format!("x = {}a", "a .. ".repeat(depth)),
+            format!(
+                "---@type {}A{}\nlocal x",
+                "(".repeat(depth),
+                ")".repeat(depth)
+            ),
+            format!(
+                "---@type {}A{}\nlocal x",
+                "fun(a: ".repeat(depth),
+                ")".repeat(depth)
+            ),
+        ];
+        for input in inputs {
+            let tree = LuaParser::parse(&input, ParserConfig::default());
+            assert!(
+                tree.get_errors()
+                    .iter()
+                    .any(|e| e.message.contains("too many syntax levels"))
+            );
+            assert_eq!(tree.get_red_root().text(), input.as_str());
+        }
+
+        // nesting below the limit is accepted
+        let ok = format!("x = {}1{}", "(".repeat(150), ")".repeat(150));
+        assert!(
+            LuaParser::parse(&ok, ParserConfig::default())
+                .get_errors()
+                .is_empty()
+        );
+    }
+
+    #[test]
     fn test_invalid_suffixed_expr_still_builds_recoverable_tree() {
         let lua_code = r#"
 
